@@ -2,7 +2,9 @@
 use crate::ik::*;
 use crate::robots::*;
 use crate::util::*;
-use rs_opw_kinematics::kinematic_traits::Joints;
+use rs_opw_kinematics::kinematic_traits::{Joints, Kinematics};
+use crate::c09::{build, random_iso, W};
+use std::sync::Arc;
 use std::f64::consts::PI;
 
 pub fn main(tier: &str, seed: u64, n_override: Option<u64>) {
@@ -34,6 +36,26 @@ pub fn main(tier: &str, seed: u64, n_override: Option<u64>) {
                 let n = if five { 5 } else { 6 };
                 let found = con.iter().any(|c| (0..n).all(|i| ang_diff(c[i], u[i]) < 1e-7));
                 if !found && direct == "ok" { direct = "fail".into(); class = format!("C08.compliant_solution_dropped_entry{}_dof{}", entry, r.p.dof); }
+            }
+        }
+        // the same through wrapper stacks (depth 1..3 of tool / base / frame, optionally a parallelogram around the robot):
+        // the stack reports the limits of the robot it wraps, and every answer mapped back to the inner robot's joints is within them
+        if idx % 4 == 0 && direct == "ok" {
+            let depth = 1 + rng.below(3) as usize;
+            let ws: Vec<W> = (0..depth).map(|_| match rng.below(3) { 0 => W::Tool(random_iso(&mut rng, five)), 1 => W::Base(random_iso(&mut rng, false)), _ => W::Frame(random_iso(&mut rng, five)) }).collect();
+            let inner: Arc<dyn Kinematics> = Arc::new(r.solver());
+            let para = rng.below(3) == 0;
+            let scaling = [1.0, 0.5, -1.0][rng.below(3) as usize];
+            let core: Arc<dyn Kinematics> = if para { Arc::new(rs_opw_kinematics::parallelogram::Parallelogram { robot: inner.clone(), scaling, driven: 1, coupled: 2 }) } else { inner.clone() };
+            let stack = build(core, &ws);
+            let same = match (stack.constraints(), inner.constraints()) { (Some(a), Some(b)) => a.from == b.from && a.to == b.to && a.sorting_weight == b.sorting_weight, (None, None) => true, _ => false };
+            if !same { direct = "fail".into(); class = "C08.wrapper_reports_other_limits".into(); }
+            let wpose = stack.forward(&o);
+            let sols = match entry { 0 => stack.inverse(&wpose), 1 => stack.inverse_continuing(&wpose, &prev), 2 => stack.inverse_5dof(&wpose, j6), _ => stack.inverse_continuing_5dof(&wpose, &prev) };
+            for s in &sols {
+                // the limits are those of the wrapped robot: undo the parallelogram coupling before testing
+                let mut inner_j = *s; if para { inner_j[2] -= scaling * inner_j[1]; }
+                if compliant_oracle(&r.cons, &inner_j) == Some(false) && direct == "ok" { direct = "fail".into(); class = format!("C08.noncompliant_answer_through_wrappers_entry{}", entry); }
             }
         }
         println!("{}", Obj::new().s("prop", "C08").i("case", idx as i64).raw("robot", &r.json()).s("kind", &format!("{:?}", kind)).i("entry", entry as i64)
